@@ -111,6 +111,13 @@ def _unjkw(kw):
 
 
 def replay_case(case):
+    if case.get("kind") == "anyvalue":
+        e = next(x for x in C.entries() if x.label == case["entry"])
+        kw0, vals = hostile_field_values(e)
+        for f, vclass, v in vals:
+            if f.name == case["field"] and vclass == case["vclass"]:
+                return judge_any_value(e, kw0, f, vclass, v)[1]
+        return []
     acc = engine.Acc()
     if case["kind"] == "kw":
         cid = bytes.fromhex(case["cid"])
@@ -177,6 +184,52 @@ def run_entry(e, quick, acc):
                 site = f"keywords|{e.label}"
                 build_all_forms(e.clsid, name_id, e.mode, kw, site, acc, {"kind": "kw", "cid": e.clsid.hex(), "name": name_id, "mode": e.mode, "kw": _jkw(kw), "site": site})
     acc.states.add(e.label)
+
+
+def hostile_field_values(e):
+    """[(field, value class, value)] - the value menu of C15 (values of any type and magnitude), first member of each group."""
+    from checks.c15 import hostile_values
+    sizes = C._size_fields(e.pdict)
+    kw0 = dict(K.route_kwargs(e) or {})
+    kw0.update({n: 1 for n in sizes})
+    try:
+        _, fields = L.encode(e.pdict, K.trivial_kwarg(e, kw0), True, L.special_of(e.mode, e.clsid))
+    except L.Unfit:
+        return kw0, []
+    out, seen = [], set()
+    for f in fields:
+        if f.name in seen or f.name.startswith("_HP") or (f.path and max(f.path) > 1):
+            continue
+        seen.add(f.name)
+        for vclass, v in hostile_values(f, True):
+            out.append((f, vclass, v))
+    return kw0, out
+
+
+def judge_any_value(e, kw0, f, vclass, v):
+    """Whatever value is supplied: IF construction succeeds, the message serializes to a well-formed frame that
+    parse accepts in the same mode."""
+    kw = dict(kw0)
+    kw[f.name] = v
+    try:
+        m = UBXMessage(e.clsid[0:1], e.clsid[1:2], e.mode, **K.trivial_kwarg(e, kw))
+    except Exception:  # noqa: BLE001  (refusals and their exception types are C15's business)
+        return "refused", []
+    k = "CH" if f.typ == "CH" else f.typ[0]
+    _, out = frame_checks(m, e.clsid, e.mode, f"keywords_any_value|{k}|{vclass}")
+    return "built", out
+
+
+def run_any_value(e, acc):
+    if K.route_kwargs(e) is None:
+        return
+    kw0, vals = hostile_field_values(e)
+    for f, vclass, v in vals:
+        st, out = judge_any_value(e, kw0, f, vclass, v)
+        acc.evaluations += 1
+        acc.outcomes[("anyvalue", "keywords", st)] += 1
+        for key, detail in out:
+            acc.violation(key, {"kind": "anyvalue", "entry": e.label, "field": f.name, "vclass": vclass}, f"{e.label} {f.name}: {detail}")
 
 
 def run_payload_route(cid, ents, quick, acc):
@@ -281,6 +334,7 @@ def eval_block(block, acc):
             e = ents[i]
             if e.routed and not C.invalid_types(e.pdict):
                 run_entry(e, quick, acc)
+                run_any_value(e, acc)
         if len(acc.samples) < 1 and acc.states:
             acc.sample({"entry": sorted(acc.states)[0], "routes": "keywords x {bytes, ints, names}"})
     elif kind == "payload":
